@@ -221,6 +221,34 @@ class ExcValue(object):
         self.args = args
 
 
+class RepList(object):
+    """head + base * count + tail with a symbolic count >= 0: what `notes * octaves + [notes[0]]` builds
+    (and its reversal)."""
+
+    def __init__(self, base, count, tail, origin=None, head=()):
+        self.head = list(head)
+        self.base = list(base)
+        self.count = count      # z3 Int
+        self.tail = list(tail)
+        self.origin = origin
+
+    def __repr__(self):
+        return "RepList(%r + %r * %s + %r)" % (self.head, self.base, self.count, self.tail)
+
+
+class SIntSet(object):
+    """an unknown collection of ints, used only through `x in s` (uninterpreted membership)"""
+
+    def __init__(self, ident):
+        self.ident = ident
+
+
+class SuperProxy(object):
+    def __init__(self, obj, after):
+        self.obj = obj
+        self.after = after
+
+
 class RangeVal(object):
     def __init__(self, lo, hi, step=1):
         self.lo, self.hi, self.step = lo, hi, step
